@@ -1,1 +1,682 @@
-pub fn serve() -> i32 { 2 }
+//! C16 — every implemented operation is total and build-profile independent (DESIGN.md section 6, C16).
+//!
+//! One op registry (built identically by both builds of this crate) lists the public operations.
+//! The overflow-checked binary evaluates each generated case under `guard` (a panic is a violation
+//! unless it is an explicit `todo!()` stub); cases that returned are sent in batches to the plain
+//! optimised binary (`vcheck --serve`, same sources, same registry) whose result bits must be identical.
+//! A watchdog turns a case that does not return into `kind=hang`.
+use super::util::*;
+use crate::core::*;
+use crate::gen;
+use crate::pt::{PT, QT};
+use crate::px::{PX, PXC};
+use crate::with_n;
+use proptest::prelude::*;
+use serde_json::json;
+use softposit::{P16E1, P32E2, P8E0, PxE1, PxE2, Q16E1, Q32E2, Q8E0};
+use std::io::{Read, Write};
+use std::sync::atomic::{AtomicU64, Ordering};
+use std::sync::{Mutex, OnceLock};
+
+#[derive(Clone, Copy, PartialEq, Debug)]
+pub enum Arg {
+    /// posit pattern of width n (right-aligned)
+    P(u32),
+    /// generic-width posit pattern, left-aligned in 32 bits
+    Px(u32),
+    F64,
+    F32,
+    I64,
+    /// small signed integer (powi exponent)
+    Small,
+    /// quire image: k words
+    Img(u32),
+    /// up to 16 bytes of text in two words
+    Text,
+}
+
+pub struct Op {
+    pub name: String,
+    pub args: Vec<Arg>,
+    pub f: Box<dyn Fn(&[u64]) -> u64 + Send + Sync>,
+}
+
+fn mix(a: u64, b: u64) -> u64 {
+    splitmix(a ^ b.rotate_left(32))
+}
+fn fb64(f: f64) -> u64 {
+    if f.is_nan() { 0x7ff8_0000_0000_0000 } else { f.to_bits() }
+}
+fn fb32(f: f32) -> u64 {
+    if f.is_nan() { 0x7fc0_0000 } else { f.to_bits() as u64 }
+}
+fn text_of(a: u64, b: u64) -> String {
+    const ALPHA: &[u8] = b"0123456789.eE-+naNiRf _x";
+    let len = (a & 0xf) as usize;
+    let mut s = String::new();
+    let mut w = (a >> 4) ^ b.rotate_left(17);
+    for i in 0..len {
+        if i == 8 {
+            w = b;
+        }
+        s.push(ALPHA[(w % ALPHA.len() as u64) as usize] as char);
+        w /= ALPHA.len() as u64;
+    }
+    s
+}
+
+/// elementary functions of the fixed types that are not in `PT`
+pub trait Elem: PT {
+    fn reg_elem(v: &mut Vec<Op>);
+}
+macro_rules! impl_elem {
+    ($P:ty, [$($un:ident),*], [$($bin:ident),*]) => {
+        impl Elem for $P {
+            fn reg_elem(v: &mut Vec<Op>) {
+                let n = <$P as PT>::N;
+                let nm = <$P as PT>::NAME;
+                $( v.push(Op { name: format!("{}.{}", nm, stringify!($un)), args: vec![Arg::P(n)], f: Box::new(|a| <$P as PT>::tb(<$P>::$un(<$P as PT>::fb(a[0])))) }); )*
+                $( v.push(Op { name: format!("{}.{}", nm, stringify!($bin)), args: vec![Arg::P(n), Arg::P(n)], f: Box::new(|a| <$P as PT>::tb(<$P>::$bin(<$P as PT>::fb(a[0]), <$P as PT>::fb(a[1])))) }); )*
+                v.push(Op { name: format!("{}.powi", nm), args: vec![Arg::P(n), Arg::Small], f: Box::new(|a| <$P as PT>::tb(<$P>::powi(<$P as PT>::fb(a[0]), a[1] as i32))) });
+                v.push(Op { name: format!("{}.sin_cos", nm), args: vec![Arg::P(n)], f: Box::new(|a| { let (s, c) = <$P>::sin_cos(<$P as PT>::fb(a[0])); mix(<$P as PT>::tb(s), <$P as PT>::tb(c)) }) });
+                v.push(Op { name: format!("{}.FromStr", nm), args: vec![Arg::Text], f: Box::new(|a| match text_of(a[0], a[1]).parse::<$P>() { Ok(p) => <$P as PT>::tb(p), Err(_) => u64::MAX }) });
+                v.push(Op { name: format!("{}.Display", nm), args: vec![Arg::P(n)], f: Box::new(|a| hash_str(&format!("{} {:?}", <$P as PT>::fb(a[0]), <$P as PT>::fb(a[0])))) });
+            }
+        }
+    };
+}
+impl_elem!(P8E0, [acos, acosh, asin, asinh, atan, atanh, cbrt, cos, cosh, exp, exp2, exp_m1, ln, ln_1p, log10, log2, recip, sin, sinh, tan, tanh], [atan2, div_euclid, hypot, log, powf, rem_euclid]);
+impl_elem!(P16E1, [acos, acosh, asin, asinh, atan, atanh, cbrt, cos, cosh, exp, exp2, exp_m1, ln, ln_1p, log10, log2, recip, sin, sinh, tan, tanh, sin_pi, cos_pi, tan_pi, asin_pi, acos_pi, atan_pi, to_degrees, to_radians], [atan2, div_euclid, hypot, log, powf, rem_euclid]);
+impl_elem!(P32E2, [acos, acosh, asin, asinh, atan, atanh, cbrt, cos, cosh, exp, exp2, exp10, exp_m1, ln, ln_1p, log10, log2, recip, sin, sinh, tan, tanh, to_degrees, to_radians], [atan2, div_euclid, hypot, log, powf, rem_euclid]);
+
+fn reg_fixed<P: Elem>(v: &mut Vec<Op>) {
+    let n = P::N;
+    let nm = P::NAME;
+    macro_rules! un {
+        ($name:expr, $f:expr) => {
+            v.push(Op { name: format!("{}.{}", nm, $name), args: vec![Arg::P(n)], f: Box::new(move |a| $f(P::fb(a[0]))) });
+        };
+    }
+    macro_rules! bin {
+        ($name:expr, $f:expr) => {
+            v.push(Op { name: format!("{}.{}", nm, $name), args: vec![Arg::P(n), Arg::P(n)], f: Box::new(move |a| $f(P::fb(a[0]), P::fb(a[1]))) });
+        };
+    }
+    bin!("add", |a: P, b: P| a.add(b).tb());
+    bin!("sub", |a: P, b: P| a.sub(b).tb());
+    bin!("mul", |a: P, b: P| a.mul(b).tb());
+    bin!("div", |a: P, b: P| a.div(b).tb());
+    bin!("rem", |a: P, b: P| a.rem(b).tb());
+    bin!("+", |a: P, b: P| a.op_add(b).tb());
+    bin!("-", |a: P, b: P| a.op_sub(b).tb());
+    bin!("*", |a: P, b: P| a.op_mul(b).tb());
+    bin!("/", |a: P, b: P| a.op_div(b).tb());
+    bin!("%", |a: P, b: P| a.op_rem(b).tb());
+    bin!("+=", |a: P, b: P| a.op_add_assign(b).tb());
+    bin!("-=", |a: P, b: P| a.op_sub_assign(b).tb());
+    bin!("*=", |a: P, b: P| a.op_mul_assign(b).tb());
+    bin!("/=", |a: P, b: P| a.op_div_assign(b).tb());
+    bin!("%=", |a: P, b: P| a.op_rem_assign(b).tb());
+    un!("neg", |a: P| a.neg().tb());
+    un!("-x", |a: P| a.op_neg().tb());
+    v.push(Op { name: format!("{}.mul_add", nm), args: vec![Arg::P(n); 3], f: Box::new(|a| P::fb(a[0]).mul_add(P::fb(a[1]), P::fb(a[2])).tb()) });
+    v.push(Op { name: format!("{}.mul_sub", nm), args: vec![Arg::P(n); 3], f: Box::new(|a| P::fb(a[0]).mul_sub(P::fb(a[1]), P::fb(a[2])).tb()) });
+    v.push(Op { name: format!("{}.sub_product", nm), args: vec![Arg::P(n); 3], f: Box::new(|a| P::fb(a[0]).sub_product(P::fb(a[1]), P::fb(a[2])).tb()) });
+    un!("sqrt", |a: P| a.sqrt().tb());
+    un!("round", |a: P| a.round().tb());
+    un!("floor", |a: P| a.floor().tb());
+    un!("ceil", |a: P| a.ceil().tb());
+    un!("trunc", |a: P| a.trunc().tb());
+    un!("fract", |a: P| a.fract().tb());
+    un!("to_f32", |a: P| fb32(a.to_f32()));
+    un!("to_f64", |a: P| fb64(a.to_f64()));
+    un!("to_i32", |a: P| a.to_i32() as u32 as u64);
+    un!("to_u32", |a: P| a.to_u32() as u64);
+    un!("to_i64", |a: P| a.to_i64() as u64);
+    un!("to_u64", |a: P| a.to_u64());
+    un!("abs", |a: P| a.abs().tb());
+    un!("signum", |a: P| a.signum().tb());
+    un!("classify", |a: P| a.classify() as u64 | (a.is_zero() as u64) << 8 | (a.is_nar() as u64) << 9 | (a.is_sign_negative() as u64) << 10 | (a.is_finite() as u64) << 11);
+    bin!("copysign", |a: P, b: P| a.copysign(b).tb());
+    bin!("cmp", |a: P, b: P| a.cmp(b) as i8 as u8 as u64 | (a.lt(b) as u64) << 8 | (a.le(b) as u64) << 9 | (a.op_eq(b) as u64) << 10 | (a.op_partial_cmp(b).is_some() as u64) << 11);
+    bin!("min", |a: P, b: P| mix(a.min(b).tb(), a.ord_min(b).tb()));
+    bin!("max", |a: P, b: P| mix(a.max(b).tb(), a.ord_max(b).tb()));
+    v.push(Op { name: format!("{}.from_f64", nm), args: vec![Arg::F64], f: Box::new(|a| mix(P::from_f64(f64::from_bits(a[0])).tb(), P::conv_from_f64(f64::from_bits(a[0])).tb())) });
+    v.push(Op { name: format!("{}.from_f32", nm), args: vec![Arg::F32], f: Box::new(|a| mix(P::from_f32(f32::from_bits(a[0] as u32)).tb(), P::conv_from_f32(f32::from_bits(a[0] as u32)).tb())) });
+    v.push(Op { name: format!("{}.from_i32", nm), args: vec![Arg::I64], f: Box::new(|a| mix(P::from_i32(a[0] as i32).tb(), P::from_i8(a[0] as i8).tb() ^ P::from_i16(a[0] as i16).tb() << 20)) });
+    v.push(Op { name: format!("{}.from_u32", nm), args: vec![Arg::I64], f: Box::new(|a| mix(P::from_u32(a[0] as u32).tb(), P::from_u8(a[0] as u8).tb() ^ P::from_u16(a[0] as u16).tb() << 20)) });
+    v.push(Op { name: format!("{}.from_i64", nm), args: vec![Arg::I64], f: Box::new(|a| mix(P::from_i64(a[0] as i64).tb(), P::from_isize(a[0] as i64 as isize).tb())) });
+    v.push(Op { name: format!("{}.from_u64", nm), args: vec![Arg::I64], f: Box::new(|a| mix(P::from_u64(a[0]).tb(), P::from_usize(a[0] as usize).tb())) });
+    P::reg_elem(v);
+}
+
+fn img(a: &[u64], k: usize) -> [u64; 8] {
+    let mut i = [0u64; 8];
+    for j in 0..k {
+        i[8 - k + j] = a[j];
+    }
+    if k == 1 {
+        i[7] &= 0xffff_ffff;
+    }
+    i
+}
+fn himg(i: [u64; 8]) -> u64 {
+    i.iter().fold(0x1234, |h, w| mix(h, *w))
+}
+fn reg_quire<Q: QT>(v: &mut Vec<Op>) {
+    let k = (Q::BITS / 64).max(1);
+    let n = <Q::P as PT>::N;
+    let nm = Q::NAME;
+    let ku = k as usize;
+    v.push(Op { name: format!("{}.from_bits.to_posit", nm), args: vec![Arg::Img(k)], f: Box::new(move |a| { let q = Q::from_image(img(a, ku)); mix(q.to_posit().tb(), q.conv_to().tb()) ^ (q.is_zero() as u64) << 40 ^ (q.is_nar() as u64) << 41 }) });
+    v.push(Op { name: format!("{}.neg/clear", nm), args: vec![Arg::Img(k)], f: Box::new(move |a| { let mut q = Q::from_image(img(a, ku)); q.neg(); let h = himg(q.image()); q.clear(); mix(h, himg(q.image())) }) });
+    v.push(Op { name: format!("{}.into_two_posits", nm), args: vec![Arg::Img(k)], f: Box::new(move |a| { let (x, y) = Q::from_image(img(a, ku)).into_two(); mix(x.tb(), y.tb()) }) });
+    v.push(Op { name: format!("{}.into_three_posits", nm), args: vec![Arg::Img(k)], f: Box::new(move |a| { let (x, y, z) = Q::from_image(img(a, ku)).into_three(); mix(mix(x.tb(), y.tb()), z.tb()) }) });
+    let mut args = vec![Arg::Img(k)];
+    args.push(Arg::P(n));
+    args.push(Arg::P(n));
+    v.push(Op { name: format!("{}.+=(a,b)", nm), args: args.clone(), f: Box::new(move |a| { let mut q = Q::from_image(img(a, ku)); q.add_tuple(<Q::P as PT>::fb(a[ku]), <Q::P as PT>::fb(a[ku + 1])); himg(q.image()) }) });
+    v.push(Op { name: format!("{}.-=(a,b)", nm), args: args.clone(), f: Box::new(move |a| { let mut q = Q::from_image(img(a, ku)); q.sub_tuple(<Q::P as PT>::fb(a[ku]), <Q::P as PT>::fb(a[ku + 1])); himg(q.image()) }) });
+    v.push(Op { name: format!("{}.+=a/-=a", nm), args: args.clone(), f: Box::new(move |a| { let mut q = Q::from_image(img(a, ku)); q.add_posit(<Q::P as PT>::fb(a[ku])); q.sub_posit(<Q::P as PT>::fb(a[ku + 1])); himg(q.image()) }) });
+    v.push(Op { name: format!("{}.Quire::add_product/sub_product", nm), args, f: Box::new(move |a| { let mut q = Q::t_from_image(img(a, ku)); q.t_add_product(<Q::P as PT>::fb(a[ku]), <Q::P as PT>::fb(a[ku + 1])); q.t_sub_product(<Q::P as PT>::fb(a[ku + 1]), <Q::P as PT>::fb(a[ku])); himg(q.t_image()) ^ q.t_to_posit().tb() }) });
+    v.push(Op { name: format!("{}.from_posit", nm), args: vec![Arg::P(n)], f: Box::new(|a| himg(Q::from_posit(<Q::P as PT>::fb(a[0])).image())) });
+}
+
+fn reg_px<X: PXC>(v: &mut Vec<Op>) {
+    let n = X::N;
+    let nm = X::name();
+    macro_rules! px {
+        ($name:expr, $k:expr, $f:expr) => {
+            v.push(Op { name: format!("{}.{}", nm, $name), args: vec![Arg::Px(n); $k], f: Box::new(move |a| $f(X::fb(a[0] as u32), X::fb(*a.get(1).unwrap_or(&0) as u32), X::fb(*a.get(2).unwrap_or(&0) as u32))) });
+        };
+    }
+    px!("+", 2, |a: X, b: X, _c: X| mix(a.op_add(b).tb() as u64, a.op_add_assign(b).tb() as u64));
+    px!("-", 2, |a: X, b: X, _c: X| mix(a.op_sub(b).tb() as u64, a.op_sub_assign(b).tb() as u64));
+    px!("*", 2, |a: X, b: X, _c: X| mix(a.op_mul(b).tb() as u64, a.op_mul_assign(b).tb() as u64));
+    px!("/", 2, |a: X, b: X, _c: X| mix(a.op_div(b).tb() as u64, a.op_div_assign(b).tb() as u64));
+    px!("mul_add", 3, |a: X, b: X, c: X| a.mul_add(b, c).tb() as u64);
+    px!("mul_sub", 3, |a: X, b: X, c: X| a.mul_sub(b, c).tb() as u64);
+    px!("sub_product", 3, |a: X, b: X, c: X| c.sub_product(a, b).tb() as u64);
+    px!("sqrt", 1, |a: X, _b: X, _c: X| a.sqrt().map(|r| r.tb() as u64).unwrap_or(7));
+    px!("round", 1, |a: X, _b: X, _c: X| a.round().tb() as u64);
+    px!("-x", 1, |a: X, _b: X, _c: X| a.op_neg().tb() as u64 ^ (a.is_zero() as u64) << 40 ^ (a.is_nar() as u64) << 41);
+    px!("cmp", 2, |a: X, b: X, _c: X| a.cmp(b) as i8 as u8 as u64 | (a.lt(b) as u64) << 8 | (a.op_le(b) as u64) << 9 | (a.op_eq(b) as u64) << 10 | (a.ord_min(b).tb() as u64) << 16);
+    px!("to_f64/to_f32", 1, |a: X, _b: X, _c: X| mix(fb64(a.to_f64()), fb32(a.to_f32())));
+    px!("to_p8e0/p16e1/p32e2", 1, |a: X, _b: X, _c: X| mix(mix(a.to_p8()[0], a.to_p16()[0]), a.to_p32()[0]));
+    px!("to_i32/u32/i64/u64", 1, |a: X, _b: X, _c: X| mix(mix(a.to_i32()[0] as u32 as u64, a.to_u32()[0] as u64), mix(a.to_i64()[0] as u64, a.to_u64()[0])));
+    v.push(Op { name: format!("{}.from_f64", nm), args: vec![Arg::F64], f: Box::new(|a| X::from_f64(f64::from_bits(a[0])).tb() as u64) });
+    v.push(Op { name: format!("{}.from_f32", nm), args: vec![Arg::F32], f: Box::new(|a| X::from_f32(f32::from_bits(a[0] as u32)).tb() as u64) });
+    v.push(Op { name: format!("{}.from_p8e0", nm), args: vec![Arg::P(8)], f: Box::new(|a| X::from_p8(a[0] as u8)[0] as u64) });
+    v.push(Op { name: format!("{}.from_p16e1", nm), args: vec![Arg::P(16)], f: Box::new(|a| X::from_p16(a[0] as u16)[0] as u64) });
+    v.push(Op { name: format!("{}.from_p32e2", nm), args: vec![Arg::P(32)], f: Box::new(|a| X::from_p32(a[0] as u32)[0] as u64) });
+    v.push(Op { name: format!("{}.from_i32", nm), args: vec![Arg::I64], f: Box::new(|a| X::from_i32(a[0] as i32).map(|r| r[0] as u64).unwrap_or(7)) });
+    v.push(Op { name: format!("{}.from_u64", nm), args: vec![Arg::I64], f: Box::new(|a| X::from_u64(a[0]).map(|r| r[0] as u64).unwrap_or(7)) });
+    if X::FAMILY == "PxE2" {
+        v.push(Op { name: format!("{}.from_u32", nm), args: vec![Arg::I64], f: Box::new(|a| X::from_u32(a[0] as u32).map(|r| r[0] as u64).unwrap_or(7)) });
+        v.push(Op { name: format!("{}.from_i64", nm), args: vec![Arg::I64], f: Box::new(|a| X::from_i64(a[0] as i64).map(|r| r[0] as u64).unwrap_or(7)) });
+        v.push(Op { name: format!("{}.from_q32e2", nm), args: vec![Arg::Img(8)], f: Box::new(|a| X::from_q32(&Q32E2::from_bits([a[0], a[1], a[2], a[3], a[4], a[5], a[6], a[7]])).unwrap_or(7) as u64) });
+    }
+}
+
+fn reg_g2g<const M: u32, const N: u32>(v: &mut Vec<Op>) {
+    v.push(Op { name: format!("PxE2<{}>->PxE1<{}>", M, N), args: vec![Arg::Px(M)], f: Box::new(|a| PxE1::<N>::from_pxe2(PxE2::<M>::from_bits(a[0] as u32)).to_bits() as u64) });
+    v.push(Op { name: format!("PxE1<{}>->PxE2<{}>", M, N), args: vec![Arg::Px(M)], f: Box::new(|a| PxE2::<N>::from_pxe1(PxE1::<M>::from_bits(a[0] as u32)).to_bits() as u64) });
+    v.push(Op { name: format!("PxE2<{}>->PxE2<{}>", M, N), args: vec![Arg::Px(M)], f: Box::new(|a| PxE2::<N>::from_pxe2(PxE2::<M>::from_bits(a[0] as u32)).to_bits() as u64) });
+}
+
+pub fn registry() -> &'static Vec<Op> {
+    static REG: OnceLock<Vec<Op>> = OnceLock::new();
+    REG.get_or_init(|| {
+        let mut v = vec![];
+        reg_fixed::<P8E0>(&mut v);
+        reg_fixed::<P16E1>(&mut v);
+        reg_fixed::<P32E2>(&mut v);
+        reg_quire::<Q8E0>(&mut v);
+        reg_quire::<Q16E1>(&mut v);
+        reg_quire::<Q32E2>(&mut v);
+        // posit <-> posit
+        v.push(Op { name: "P8E0->P16E1/P32E2".into(), args: vec![Arg::P(8)], f: Box::new(|a| { let p = P8E0::from_bits(a[0] as u8); mix(p.to_p16e1().to_bits() as u64, p.to_p32e2().to_bits() as u64) }) });
+        v.push(Op { name: "P16E1->P8E0/P32E2".into(), args: vec![Arg::P(16)], f: Box::new(|a| { let p = P16E1::from_bits(a[0] as u16); mix(p.to_p8e0().to_bits() as u64, p.to_p32e2().to_bits() as u64) }) });
+        v.push(Op { name: "P32E2->P8E0/P16E1".into(), args: vec![Arg::P(32)], f: Box::new(|a| { let p = P32E2::from_bits(a[0] as u32); mix(p.to_p8e0().to_bits() as u64, p.to_p16e1().to_bits() as u64) }) });
+        for n in 2..=32u32 {
+            with_n!(n, N, {
+                reg_px::<PxE2<N>>(&mut v);
+                reg_px::<PxE1<N>>(&mut v);
+            });
+        }
+        for m in [2u32, 3, 16, 31, 32] {
+            for n in [2u32, 3, 4, 8, 15, 16, 30, 31, 32] {
+                match m {
+                    2 => with_n!(n, N, reg_g2g::<2, N>(&mut v)),
+                    3 => with_n!(n, N, reg_g2g::<3, N>(&mut v)),
+                    16 => with_n!(n, N, reg_g2g::<16, N>(&mut v)),
+                    31 => with_n!(n, N, reg_g2g::<31, N>(&mut v)),
+                    _ => with_n!(n, N, reg_g2g::<32, N>(&mut v)),
+                }
+            }
+        }
+        v
+    })
+}
+
+// ---------------------------------------------------------------- worker (optimised build)
+
+/// `vcheck --serve`: read batches of (op u32, nargs u32, args...) and answer result words
+pub fn serve() -> i32 {
+    let reg = registry();
+    let stdin = std::io::stdin();
+    let stdout = std::io::stdout();
+    let mut inp = stdin.lock();
+    let mut out = stdout.lock();
+    let mut hdr = [0u8; 4];
+    loop {
+        if inp.read_exact(&mut hdr).is_err() {
+            return 0;
+        }
+        let count = u32::from_le_bytes(hdr) as usize;
+        let mut results = Vec::with_capacity(count * 8);
+        for _ in 0..count {
+            let mut h = [0u8; 8];
+            if inp.read_exact(&mut h).is_err() {
+                return 0;
+            }
+            let op = u32::from_le_bytes([h[0], h[1], h[2], h[3]]) as usize;
+            let na = u32::from_le_bytes([h[4], h[5], h[6], h[7]]) as usize;
+            let mut args = vec![0u64; na];
+            for a in args.iter_mut() {
+                let mut w = [0u8; 8];
+                if inp.read_exact(&mut w).is_err() {
+                    return 0;
+                }
+                *a = u64::from_le_bytes(w);
+            }
+            // a panic in the optimised build is reported as a distinguished word
+            let r = match std::panic::catch_unwind(std::panic::AssertUnwindSafe(|| (reg[op].f)(&args))) {
+                Ok(r) => r,
+                Err(_) => 0xDEAD_DEAD_DEAD_DEAD,
+            };
+            results.extend_from_slice(&r.to_le_bytes());
+        }
+        if out.write_all(&results).is_err() || out.flush().is_err() {
+            return 0;
+        }
+    }
+}
+
+struct Worker {
+    child: std::process::Child,
+    stdin: std::process::ChildStdin,
+    rx: std::sync::mpsc::Receiver<Vec<u8>>,
+}
+fn spawn_worker() -> Result<Worker, String> {
+    let exe = std::env::current_exe().map_err(|e| e.to_string())?;
+    // .../target/checked/vcheck -> .../target/fast/vcheck
+    let fast = exe.parent().and_then(|p| p.parent()).map(|p| p.join("fast").join("vcheck")).ok_or("no target dir")?;
+    if !fast.exists() {
+        return Err(format!("optimised build {} not found (run ./check setup)", fast.display()));
+    }
+    let mut child = std::process::Command::new(&fast).arg("--serve").stdin(std::process::Stdio::piped()).stdout(std::process::Stdio::piped()).stderr(std::process::Stdio::null()).spawn().map_err(|e| e.to_string())?;
+    let stdin = child.stdin.take().unwrap();
+    let mut stdout = child.stdout.take().unwrap();
+    let (tx, rx) = std::sync::mpsc::channel();
+    std::thread::spawn(move || {
+        let mut buf = vec![0u8; 1 << 16];
+        loop {
+            match stdout.read(&mut buf) {
+                Ok(0) | Err(_) => break,
+                Ok(n) => {
+                    if tx.send(buf[..n].to_vec()).is_err() {
+                        break;
+                    }
+                }
+            }
+        }
+    });
+    Ok(Worker { child, stdin, rx })
+}
+impl Worker {
+    /// send a batch, wait at most `secs` for all results
+    fn batch(&mut self, cases: &[(u32, Vec<u64>)], secs: u64) -> Result<Vec<u64>, String> {
+        let mut msg = Vec::with_capacity(cases.len() * 32);
+        msg.extend_from_slice(&(cases.len() as u32).to_le_bytes());
+        for (op, args) in cases {
+            msg.extend_from_slice(&op.to_le_bytes());
+            msg.extend_from_slice(&(args.len() as u32).to_le_bytes());
+            for a in args {
+                msg.extend_from_slice(&a.to_le_bytes());
+            }
+        }
+        self.stdin.write_all(&msg).map_err(|e| e.to_string())?;
+        self.stdin.flush().map_err(|e| e.to_string())?;
+        let need = cases.len() * 8;
+        let mut got: Vec<u8> = Vec::with_capacity(need);
+        let deadline = std::time::Instant::now() + std::time::Duration::from_secs(secs);
+        while got.len() < need {
+            let left = deadline.saturating_duration_since(std::time::Instant::now());
+            match self.rx.recv_timeout(left) {
+                Ok(b) => got.extend_from_slice(&b),
+                Err(std::sync::mpsc::RecvTimeoutError::Timeout) => return Err("timeout".into()),
+                Err(_) => return Err("worker died".into()),
+            }
+        }
+        Ok(got.chunks(8).map(|c| u64::from_le_bytes(c.try_into().unwrap())).collect())
+    }
+    fn kill(&mut self) {
+        let _ = self.child.kill();
+        let _ = self.child.wait();
+    }
+}
+
+// ---------------------------------------------------------------- watchdog (checked build)
+
+static SLOTS: [[AtomicU64; 4]; 64] = {
+    #[allow(clippy::declare_interior_mutable_const)]
+    const Z: AtomicU64 = AtomicU64::new(0);
+    #[allow(clippy::declare_interior_mutable_const)]
+    const R: [AtomicU64; 4] = [Z; 4];
+    [R; 64]
+};
+fn slot() -> &'static [AtomicU64; 4] {
+    &SLOTS[rayon::current_thread_index().unwrap_or(63) % 64]
+}
+/// publish the in-flight case: [serial|busy, op, arg0, arg1]
+fn enter(op: u32, args: &[u64]) {
+    let s = slot();
+    s[1].store(op as u64, Ordering::Relaxed);
+    s[2].store(args.first().copied().unwrap_or(0), Ordering::Relaxed);
+    s[3].store(args.get(1).copied().unwrap_or(0), Ordering::Relaxed);
+    s[0].store((s[0].load(Ordering::Relaxed) | 1).wrapping_add(2) | 1, Ordering::Release);
+}
+fn leave() {
+    let s = slot();
+    s[0].store(s[0].load(Ordering::Relaxed) & !1, Ordering::Release);
+}
+fn start_watchdog(prop: &'static str, limit_s: u64) {
+    std::thread::spawn(move || {
+        let mut last = [(0u64, std::time::Instant::now()); 64];
+        loop {
+            std::thread::sleep(std::time::Duration::from_secs(2));
+            for (i, s) in SLOTS.iter().enumerate() {
+                let v = s[0].load(Ordering::Acquire);
+                if v & 1 == 0 || v != last[i].0 {
+                    last[i] = (v, std::time::Instant::now());
+                    continue;
+                }
+                if last[i].1.elapsed().as_secs() >= limit_s {
+                    let op = s[1].load(Ordering::Relaxed) as usize;
+                    let name = registry().get(op).map(|o| o.name.clone()).unwrap_or_default();
+                    let v = Viol { op: name, args: vec![s[2].load(Ordering::Relaxed), s[3].load(Ordering::Relaxed)], want: "returns".into(), got: format!("no return after {} s", limit_s), kind: "hang" };
+                    let _ = std::fs::create_dir_all(format!("{}/replays", verif_dir()));
+                    let path = format!("{}/replays/{}-hang-{:016x}.json", verif_dir(), prop, hash_args(op as u64, &v.args));
+                    let cfg = Cfg { prop, tier: Tier::Quick, seed: 0 };
+                    let _ = std::fs::write(&path, serde_json::to_string_pretty(&v.to_json(&cfg)).unwrap());
+                    println!("VIOLATION property={} replay={}", prop, path);
+                    println!("  # {} args={:x?} does not return (kind=hang)", v.op, v.args);
+                    std::process::exit(1);
+                }
+            }
+        }
+    });
+}
+
+// ---------------------------------------------------------------- generation
+
+fn arg_strategy(a: Arg) -> BoxedStrategy<Vec<u64>> {
+    match a {
+        Arg::P(n) => prop_oneof![3 => gen::bits(n), 2 => proptest::sample::select(gen::specials(n))].prop_map(|b| vec![b]).boxed(),
+        Arg::Px(n) => prop_oneof![3 => gen::bits(n), 2 => proptest::sample::select(gen::specials(n)), 1 => any::<u64>().prop_map(|x| x & 0xffff_ffff)].prop_map(move |b| vec![if b >> n == 0 { b << (32 - n) } else { b }]).boxed(),
+        Arg::F64 => prop_oneof![3 => gen::f64bits(), 1 => proptest::sample::select(vec![0u64, 1 << 63, 0x7ff0 << 48, 0xfff0 << 48, 0x7ff8 << 48, 1, 0x7fef_ffff_ffff_ffff, 0xffef_ffff_ffff_ffff, 0x0010 << 48])].prop_map(|b| vec![b]).boxed(),
+        Arg::F32 => prop_oneof![3 => gen::f32bits().prop_map(|b| b as u64), 1 => proptest::sample::select(vec![0u64, 1 << 31, 0x7f80_0000, 0xff80_0000, 0x7fc0_0000, 1, 0x7f7f_ffff, 0x0080_0000])].prop_map(|b| vec![b]).boxed(),
+        Arg::I64 => prop_oneof![3 => gen::int64(), 2 => proptest::sample::select(vec![0u64, 1, u64::MAX, i64::MIN as u64, i64::MAX as u64, i32::MIN as i64 as u64, i32::MAX as u64, 0x8000_0000, u32::MAX as u64, i32::MIN as u32 as u64])].prop_map(|b| vec![b]).boxed(),
+        Arg::Small => prop_oneof![(-40i64..40).prop_map(|x| x as u64), proptest::sample::select(vec![i32::MIN as i64 as u64, i32::MAX as u64, 0u64])].prop_map(|b| vec![b]).boxed(),
+        Arg::Img(k) => prop_oneof![
+            // arbitrary images: random, sparse, near-NaR, near-zero, all ones
+            2 => proptest::collection::vec(any::<u64>(), k as usize),
+            2 => proptest::collection::vec(prop_oneof![Just(0u64), Just(u64::MAX), any::<u64>(), Just(1u64), Just(1u64 << 63)], k as usize),
+            1 => (0..k as usize, any::<u64>()).prop_map(move |(i, w)| { let mut v = vec![0u64; k as usize]; v[i] = w; v }),
+            1 => (0..k as usize, any::<u64>()).prop_map(move |(i, w)| { let mut v = vec![u64::MAX; k as usize]; v[i] = w; v }),
+            1 => (any::<u64>()).prop_map(move |w| { let mut v = vec![0u64; k as usize]; v[0] = 1 << 63; v[k as usize - 1] = w & 3; v }),
+        ]
+        .boxed(),
+        Arg::Text => (any::<u64>(), any::<u64>()).prop_map(|(a, b)| vec![a, b]).boxed(),
+    }
+}
+fn case_strategy(args: &[Arg]) -> BoxedStrategy<Vec<u64>> {
+    let parts: Vec<BoxedStrategy<Vec<u64>>> = args.iter().map(|a| arg_strategy(*a)).collect();
+    parts.prop_map(|vs| vs.into_iter().flatten().collect()).boxed()
+}
+
+/// is a panic of this op an explicit not-implemented stub?
+fn is_stub_panic(msg: &str) -> bool {
+    msg.contains("not yet implemented") || msg.contains("not implemented")
+}
+pub fn stub_table() -> &'static (Vec<String>, Vec<String>) {
+    static T: OnceLock<(Vec<String>, Vec<String>)> = OnceLock::new();
+    T.get_or_init(|| {
+        let path = format!("{}/c16_stubs.json", verif_dir());
+        let v = std::fs::read_to_string(path).ok().and_then(|t| serde_json::from_str::<serde_json::Value>(&t).ok());
+        let list = |k: &str| -> Vec<String> { v.as_ref().and_then(|v| v.get(k)).and_then(|s| s.as_array().cloned()).map(|a| a.iter().filter_map(|x| x.as_str().map(|s| s.to_string())).collect()).unwrap_or_default() };
+        (list("stubs"), list("partial"))
+    })
+}
+/// is a 'not yet implemented' panic of this op on these arguments excused?
+fn stub_excused(name: &str, args: &[u64]) -> bool {
+    let (always, partial) = stub_table();
+    if always.iter().any(|s| s == name) {
+        return true;
+    }
+    if partial.iter().any(|s| s == name) {
+        // P32E2 trig functions are unimplemented from |x| >= 393216 = pattern 0x7d40_0000 upwards
+        let a = args.first().copied().unwrap_or(0) as u32;
+        let mag = if a & 0x8000_0000 != 0 { a.wrapping_neg() } else { a };
+        return mag >= 0x7d40_0000;
+    }
+    false
+}
+
+/// the domain exclusions the crate documents: clamp(lo > hi) is an assert (not generated at all here)
+pub fn eval_checked(opi: usize, args: &[u64], l: &mut Local) -> Result<Option<u64>, Viol> {
+    let op = &registry()[opi];
+    l.eval();
+    enter(opi as u32, args);
+    let r = guard(|| (op.f)(args));
+    leave();
+    match r {
+        Ok(v) => Ok(Some(v)),
+        Err(m) => {
+            if is_stub_panic(&m) {
+                if stub_excused(&op.name, args) {
+                    l.label("explicit_stub(not counted)");
+                    return Ok(None);
+                }
+                return Err(Viol::panic(op.name.clone(), args, "a result (operation is not in the committed stub table c16_stubs.json)".into(), m));
+            }
+            Err(Viol::panic(op.name.clone(), args, "a result (no panic)".into(), m))
+        }
+    }
+}
+
+pub fn run(rep: &mut Report) {
+    let tier = rep.cfg.tier;
+    let reg = registry();
+    rep.rule = format!("{} registered public operations (every arithmetic, fused, rounding, comparison, conversion and elementary function of P8E0, P16E1, P32E2; PxE1<N> and PxE2<N> for every N in 2..=32; quire operations on arbitrary from_bits images; posit<->posit, generic<->generic, Q32E2 -> PxE2<N>; FromStr on generated text), each with proptest inputs (structured bits, specials 0 / NaR / +-minpos / +-maxpos, extreme integers, NaN / inf / subnormal floats, arbitrary quire images). (1) the overflow-checked build must return: a panic is a violation unless its message is 'not yet implemented' and the operation is in the committed stub table; (2) the plain optimised build of the same sources must return identical bits on every case that returned in (1); (3) a case that does not return within the watchdog limit is kind=hang. Non-trivial = case with a non-special first operand or an extreme special; distinct (op, inputs).", reg.len());
+    rep.assumptions = vec![
+        "both binaries are built from the same harness sources, so their op registries are identical".into(),
+        "float results are compared as bits with NaN canonicalised".into(),
+        "a loop that is merely slow (< watchdog limit) passes".into(),
+    ];
+    let mut worker = match spawn_worker() {
+        Ok(w) => w,
+        Err(e) => {
+            rep.inconclusive.push(format!("cannot start the optimised-build worker: {}", e));
+            return;
+        }
+    };
+    start_watchdog(rep.cfg.prop, 60);
+    // corpus first
+    let items = super::corpus(rep.cfg.prop);
+    let pending: Mutex<Vec<(u32, Vec<u64>, u64)>> = Mutex::new(vec![]);
+    if !items.is_empty() {
+        rep.fixed("corpus replay", &items, |(op, args), l| {
+            if let Some(i) = reg.iter().position(|o| &o.name == op) {
+                if let Some(v) = eval_checked(i, args, l)? {
+                    pending.lock().unwrap().push((i as u32, args.clone(), v));
+                }
+            }
+            Ok(())
+        });
+    }
+    let per = tier.pick(3_000, 40_000);
+    // one generated section per operation family (type prefix) to keep the report readable
+    let mut families: Vec<(String, Vec<usize>)> = vec![];
+    for (i, o) in reg.iter().enumerate() {
+        let fam = o.name.split(|c| c == '.' || c == '-').next().unwrap_or("").to_string();
+        match families.last_mut() {
+            Some((f, v)) if *f == fam => v.push(i),
+            _ => families.push((fam, vec![i])),
+        }
+    }
+    for (fam, ops) in families {
+        let cases = per * ops.len() as u64;
+        let ops2 = ops.clone();
+        rep.generated(&format!("{}: {} operations", fam, ops.len()), cases, move || {
+            let ops3 = ops2.clone();
+            (0..ops2.len()).prop_flat_map(move |k| {
+                let opi = ops3[k];
+                case_strategy(&registry()[opi].args).prop_map(move |a| (opi, a))
+            })
+        }, |(opi, args), l| {
+            let r = eval_checked(*opi, args, l)?;
+            if let Some(v) = r {
+                let a0 = args.first().copied().unwrap_or(0);
+                if a0 != 0 {
+                    l.nontrivial(hash_args(*opi as u64, args));
+                }
+                if !l.frozen {
+                    let mut p = pending.lock().unwrap();
+                    if p.len() < 6_000_000 {
+                        p.push((*opi as u32, args.clone(), v));
+                    }
+                }
+            }
+            Ok(())
+        });
+    }
+    // (2) differential against the optimised build
+    let pend = pending.into_inner().unwrap();
+    let t = std::time::Instant::now();
+    let mut l = Local::new(true);
+    let mut viols: Vec<Viol> = vec![];
+    for chunk in pend.chunks(8192) {
+        let cases: Vec<(u32, Vec<u64>)> = chunk.iter().map(|c| (c.0, c.1.clone())).collect();
+        match worker.batch(&cases, 120) {
+            Ok(res) => {
+                for (c, r) in chunk.iter().zip(res) {
+                    l.eval();
+                    if r != c.2 {
+                        let name = reg[c.0 as usize].name.clone();
+                        let v = if r == 0xDEAD_DEAD_DEAD_DEAD { Viol::panic(format!("{}@optimised-build", name), &c.1, format!("{:#x}", c.2), "panic in the optimised build".into()) } else { Viol::wrong_s(format!("{}@optimised-build", name), &c.1, format!("{:#x} (overflow-checked build)", c.2), format!("{:#x}", r)) };
+                        if let Err(v) = l.outcome(rep.cfg.prop, Err(v)) {
+                            if viols.len() < 8 {
+                                viols.push(v);
+                            }
+                        }
+                    }
+                }
+            }
+            Err(e) => {
+                // find the culprit one by one with a fresh worker
+                worker.kill();
+                let mut found = false;
+                if let Ok(mut w2) = spawn_worker() {
+                    for c in chunk {
+                        if w2.batch(&[(c.0, c.1.clone())], 20).is_err() {
+                            let v = Viol { op: format!("{}@optimised-build", reg[c.0 as usize].name), args: c.1.clone(), want: format!("{:#x} (overflow-checked build)", c.2), got: format!("no return within 20 s ({})", e), kind: "hang" };
+                            if let Err(v) = l.outcome(rep.cfg.prop, Err(v)) {
+                                viols.push(v);
+                            }
+                            found = true;
+                            w2.kill();
+                            break;
+                        }
+                    }
+                    if !found {
+                        w2.kill();
+                    }
+                }
+                if !found {
+                    rep.inconclusive.push(format!("optimised-build worker failed on a batch ({}), culprit not reproduced", e));
+                }
+                match spawn_worker() {
+                    Ok(w) => worker = w,
+                    Err(e) => {
+                        rep.inconclusive.push(e);
+                        break;
+                    }
+                }
+            }
+        }
+    }
+    worker.kill();
+    l.sample(|| json!({"ops_registered": reg.len(), "cases_compared_between_builds": pend.len()}));
+    let mut out = SectionOut { name: format!("optimised build vs overflow-checked build: identical bits on {} returned cases", pend.len()), exhaustive: false, evals: l.evals, nontrivial: 0, distinct: 0, labels: Default::default(), samples: l.samples, viols, known: l.known, wall_s: t.elapsed().as_secs_f64() };
+    out.nontrivial = pend.len() as u64;
+    out.distinct = pend.len() as u64;
+    rep.sections.push(out);
+    rep.extra.insert("ops_registered".into(), json!(reg.len()));
+}
+
+pub fn replay(op: &str, args: &[u64]) -> Result<(), Viol> {
+    let mut l = Local::new(false);
+    let reg = registry();
+    let (name, optimised) = match op.strip_suffix("@optimised-build") {
+        Some(n) => (n, true),
+        None => (op, false),
+    };
+    let i = match reg.iter().position(|o| o.name == name) {
+        Some(i) => i,
+        None => return Ok(()),
+    };
+    let v = eval_checked(i, args, &mut l)?;
+    if optimised {
+        if let (Some(v), Ok(mut w)) = (v, spawn_worker()) {
+            let r = w.batch(&[(i as u32, args.to_vec())], 20);
+            w.kill();
+            match r {
+                Ok(res) if res[0] == v => {}
+                Ok(res) => return Err(Viol::wrong_s(op, args, format!("{:#x} (overflow-checked build)", v), format!("{:#x}", res[0]))),
+                Err(e) => return Err(Viol { op: op.into(), args: args.to_vec(), want: format!("{:#x}", v), got: e, kind: "hang" }),
+            }
+        }
+    }
+    Ok(())
+}
+
+/// tooling: list operations whose every probed input panics with "not yet implemented"
+pub fn list_stubs() -> i32 {
+    use proptest::strategy::ValueTree;
+    use proptest::test_runner::{Config, RngSeed, TestRunner};
+    let reg = registry();
+    let mut stubs = vec![];
+    let mut partial = vec![];
+    for (i, o) in reg.iter().enumerate() {
+        let mut runner = TestRunner::new(Config { rng_seed: RngSeed::Fixed(1), ..Config::default() });
+        let st = case_strategy(&o.args);
+        let (mut st_n, mut ok_n) = (0, 0);
+        for _ in 0..300 {
+            let a = st.new_tree(&mut runner).unwrap().current();
+            match guard(|| (reg[i].f)(&a)) {
+                Err(m) if is_stub_panic(&m) => st_n += 1,
+                Ok(_) => ok_n += 1,
+                _ => {}
+            }
+        }
+        if st_n > 0 && ok_n == 0 {
+            stubs.push(o.name.clone());
+        } else if st_n > 0 {
+            partial.push(o.name.clone());
+        }
+    }
+    println!("{}", serde_json::to_string_pretty(&json!({"stubs": stubs.iter().chain(partial.iter()).collect::<Vec<_>>(), "always": stubs, "partial": partial})).unwrap());
+    0
+}
